@@ -1,33 +1,13 @@
+"""Data of MANIFEST.json: one file tools/manifest_entries/Cxx.json per CLAIMED property
+({"property_id", "technique", "text", "note"}); every other property is listed under not_applicable with the
+reason given in NOT_CLAIMED (or the default)."""
+import glob, json, os
+here = os.path.dirname(os.path.abspath(__file__))
 NOTES = ("All checks are driven by ./check <id>; see DESIGN.md. A broken proof obligation or model/implementation "
          "disagreement triggers a failing-input search on the real code; KNOWN_FINDINGS.txt lists recorded defects.")
-
-CHECKS = [
-    {"property_id": "C13",
-     "technique": "Lean 4 invariant proof by induction over edit histories + model/implementation correspondence",
-     "text": "Lean theorems (PyrollProps/C13.lean): the parent/children invariant is preserved by every list and sequence "
-             "operation (construct, append, prepend, insert, extend, +=, item/slice assignment and deletion, pop, remove, "
-             "clear, drop, flatten, copy, deep copy) for all states and all histories whose inserted units are unlisted at "
-             "that moment; prev/next agree with list order; index/slice/label/type lookups. The full-strength statement is "
-             "refuted in Lean (C13_counterexample) and recorded as known finding F10. The hand-written model is tied to "
-             "pyroll/core/unit/unit.py and sequence.py by differential runs comparing the whole tree state after every op.",
-     "note": "Trusted: Lean kernel; axioms propext/Classical.choice/Quot.sound; CPython list/weakref/deepcopy semantics as "
-             "modelled; the correspondence is sampled (random histories), so the model is believed as far as exercised. "
-             "Deep copies of subtrees that list a unit twice (memo sharing) are outside the model."},
-]
-
-CHECKS.append(
-    {"property_id": "C17",
-     "technique": "Lean 4 theorems over the reals about formulas regenerated from the source by an ast->Lean translator + formula/oracle correspondence",
-     "text": "The hook implementations for equivalent rectangle/radius, hydrostatic and von Mises stress, thermal diffusivity / "
-             "heat penetration (profile and roll) and the draught/spread/elongation coefficient families are translated from "
-             "/repo to Lean terms on every run; PyrollProps/C17.lean proves over the reals: rectangle area and ratio, radius area, "
-             "mean stress, von Mises value / all permutations / hydrostatic zero / uniaxial |s|, k = a*rho*c, e^2 = k*rho*c, "
-             "relative = coefficient-1, log = log(coefficient), product of the three coefficients = 1 and log sum = 0, pass strain. "
-             "Each generated term is also evaluated over Float and compared with the python function; the oracle checks the "
-             "identities and the chord bounds/integrals on real Profile objects and solved passes. Partial: chord properties "
-             "(shapely intersections) are numerical checks, not theorems.",
-     "note": "Trusted: Lean kernel, standard axioms, the translator (cross-checked by Float evaluation against the python "
-             "functions), IEEE rounding (theorems are over the reals; float checks use rtol 1e-9), shapely geometry."})
-
-_PENDING = "machinery for this property is not built yet in this round (planned: Lean proof per DESIGN.md section 5); not claimed until its check exists"
-NOT_APPLICABLE = [{"property_id": f"C{n:02d}", "reason": _PENDING} for n in range(1, 21) if f"C{n:02d}" not in {c["property_id"] for c in CHECKS}]
+CHECKS = [json.load(open(f)) for f in sorted(glob.glob(os.path.join(here, "manifest_entries", "C*.json")))]
+_PENDING = ("not claimed: the Lean model, theorems and correspondence harness for this property (planned in DESIGN.md "
+            "section 5) are not finished, so no check is registered for it; the technique applies, the work is pending")
+NOT_CLAIMED = {}
+NOT_APPLICABLE = [{"property_id": f"C{n:02d}", "reason": NOT_CLAIMED.get(f"C{n:02d}", _PENDING)}
+                  for n in range(1, 21) if f"C{n:02d}" not in {c["property_id"] for c in CHECKS}]
